@@ -163,7 +163,7 @@ pub fn signed_text(meta: &MetadataWrapper, sigs: &[SigEntry], tamper: &Option<Tr
 }
 
 pub fn write_world(w: &World, dir: &Path) -> MatInfo {
-    std::fs::create_dir_all(dir).expect("mkdir");
+    let _ = std::fs::create_dir_all(dir);
     let meta = MetadataWrapper::Layout(w.layout.to_lib());
     let (layout_text, layout) = signed_text(&meta, &w.sigs, &w.tamper);
     let mut files = vec![];
@@ -173,11 +173,15 @@ pub fn write_world(w: &World, dir: &Path) -> MatInfo {
         match &f.body {
             Body::Link { link, sigs, tamper } => {
                 let (text, info) = signed_text(&MetadataWrapper::Link(link.to_lib()), sigs, tamper);
-                std::fs::write(&path, text).expect("write link");
-                files.push((info, None));
+                // an unrepresentable file name (NUL, '/') simply means the file is absent
+                if std::fs::write(&path, text).is_ok() {
+                    files.push((info, None));
+                } else {
+                    files.push((DocInfo { parses: false, tampered: true }, None));
+                }
             }
             Body::Garbage(s) => {
-                std::fs::write(&path, s).expect("write garbage");
+                let _ = std::fs::write(&path, s);
                 files.push((DocInfo { parses: serde_json::from_str::<Metablock>(s).is_ok(), tampered: true }, None));
             }
             Body::Sub { world, placement } => {
@@ -187,7 +191,7 @@ pub fn write_world(w: &World, dir: &Path) -> MatInfo {
                     Placement::OtherKeyDir(k) => dir.join(format!("{}.{}", f.step, prefix8(k))),
                 };
                 let inner = write_world(world, &sub);
-                std::fs::write(&path, &inner.layout_text).expect("write sublayout");
+                let _ = std::fs::write(&path, &inner.layout_text);
                 files.push((inner.layout.clone(), Some(Box::new(inner))));
             }
         }
